@@ -595,6 +595,7 @@ func main() {
 	}
 	pl.wg.Wait()
 	c.Count("distinct_schedule_strings", int64(len(rn.schedules)))
+	c.Count("replayed_deletions_intercepted_so_far", replaysIntercepted.Load())
 	if c.Only == "" {
 		if c.Counter("o1_in_use_deletes_evaluated") == 0 || c.Counter("o1_unused_deletes_evaluated") == 0 || c.Counter("ready_transitions_checked") == 0 || c.Counter("label_removals_checked") == 0 || c.Counter("o4_release_checks") == 0 {
 			c.Inconclusive("an oracle was never exercised (see counters)")
